@@ -3,6 +3,7 @@ package props
 import (
 	"math"
 	"testing"
+	"time"
 
 	c2 "github.com/bolom009/go-clipper2"
 	"pgregory.net/rapid"
@@ -92,9 +93,38 @@ func (c *C13Case) bigExtent(ps ...Paths) bool {
 	return maxX-minX >= 1<<31 || maxY-minY >= 1<<31
 }
 
+// runAbandonable runs f in its own goroutine and gives up after the deadline (the goroutine
+// is left spinning; used only in the domain of listed finding F27, where a hang is attributed).
+func runAbandonable(f func()) (finished bool) {
+	done := make(chan struct{})
+	go func() {
+		defer func() { _ = recover(); close(done) }()
+		f()
+	}()
+	select {
+	case <-done:
+		return true
+	case <-time.After(c03Deadline):
+		return false
+	}
+}
+
 func judgeC13(c *C13Case, cx *Ctx) *Violation {
+	if c.Scale > 1 && c.bigExtent(c.TPaths(c.Subj), c.TPaths(c.Clip)) && kfActive("C13", "class:extent-exceeds-2^31") {
+		// in the F27 domain the library may not terminate: run it abandonably
+		var v *Violation
+		if !runAbandonable(func() { v = judgeC13Inner(c, cx) }) {
+			cx.St.Count("hang_attributed_to_listed_class_extent(F27)", 1)
+			return nil
+		}
+		return v
+	}
 	watchdogArm("C13", c) // a call that never returns at large magnitudes is a violation too
 	defer watchdogDisarm()
+	return judgeC13Inner(c, cx)
+}
+
+func judgeC13Inner(c *C13Case, cx *Ctx) *Violation {
 	s := float64(c.Scale)
 	subjT, clipT := c.TPaths(c.Subj), c.TPaths(c.Clip)
 	big := c.bigExtent(subjT, clipT)
@@ -145,6 +175,12 @@ func judgeC13(c *C13Case, cx *Ctx) *Violation {
 		cx.St.Eval(c, true, labels...)
 		return nil
 	case "simplify":
+		if c.Scale&(c.Scale-1) != 0 {
+			// an exact tie (distance == epsilon) survives scaling by a power of two only;
+			// other factors round differently, which is no magnitude defect (cf. C16's statement)
+			cx.St.Eval(c, false, append(labels, "skipped:simplify-non-power-of-two-scale")...)
+			return nil
+		}
 		p := first(c.Subj)
 		r0 := c2.SimplifyPath64(p, c.Eps, true)
 		r1 := c2.SimplifyPath64(first(subjT), c.Eps*s, true)
@@ -203,13 +239,9 @@ func judgeC13(c *C13Case, cx *Ctx) *Violation {
 		sol0 = c2.RectClipPaths64(r.rect(), c.Subj)
 		solT = c2.RectClipPaths64(rT.rect(), subjT)
 		avoid = append(append(Paths{}, subjT...), rT.path())
-		want = func(q P) (bool, bool) {
-			if !rT.strictlyInside(q) {
-				return false, true
-			}
-			w, _ := kit.Wind(subjT, q)
-			return w != 0, true
-		}
+		// absolute correctness of rectangle clipping is C06's business (it compares winding
+		// numbers); here only the dependence on the magnitude is judged
+		want = func(q P) (bool, bool) { return false, false }
 	case "inflate":
 		if maxAbsPaths(subjT) >= 1<<50 && kfActive("C13", "class:offset-beyond-2^50") {
 			// listed finding F46: join geometry is computed in absolute float64 coordinates
